@@ -581,6 +581,7 @@ impl Engine {
             None => {
                 if Self::rate_ok(self.m.n, self.m.l) {
                     self.v("C16", "queries_fail", "a standard query failed after the step".into());
+                    self.v("C17", "queries_answer", "State / Config / Batches / PendingBatch / IbcQueue / IbcReplyQueue: at least one query failed after the step".into());
                 } else {
                     // the totals left the supported rate range (C16 domain): nothing more can be observed
                     self.stats.probe("run_left_rate_domain");
@@ -826,7 +827,10 @@ impl Engine {
                 }
             }
         }
-        // State.rate equals the purchase rate of the current totals
+        // State.rate equals the purchase rate of the current totals (zero by convention when no LST exists)
+        if post.l == 0 && post.rate != "0" {
+            self.vo("C15", "state_rate", format!("State.rate {} but no LST exists (N={}): the posted convention is 0", post.rate, post.n));
+        }
         if post.l > 0 && post.n > 0 {
             if let Some(pur) = decimal18(post.l, post.n) {
                 if post.rate != pur {
